@@ -208,6 +208,32 @@ def run(ctx: Ctx) -> None:
         if graph is not None:
             exercise(graph, key)
 
+    # ---- node names come from the user's variable names: a local called `output` (Dynamo then names the real output node
+    #      `output_1`), `output_ids`, `outputs` ... must be treated like any other node, and the output node like the output
+    class OutNamed(torch.nn.Module):
+        def __init__(self) -> None:
+            super().__init__()
+            self.l = torch.nn.Linear(4, 4)
+
+        def forward(self, x):  # type: ignore[no-untyped-def]
+            h = self.l(x)
+            output = torch.tanh(h)
+            output_ids = output.argmax(-1)
+            outputs = output.reshape(-1, 4)
+            return outputs * 2, output_ids
+
+    key = {"path": "dynamo", "module": "locals named output / output_ids / outputs", "backward": True}
+    ctx.count(key, bucket="dynamo/output-names")
+    graph = None
+    with ctx.guard("C19:track", key):
+        torch.manual_seed(3)
+        tm = track_scales(OutNamed())
+        y, _ = tm(torch.randn(3, 4))
+        y.sum().backward()
+        graph = tm.scales_graph()
+    if graph is not None:
+        exercise(graph, key)
+
     if ctx.driver_ok and reqs:
         for (key, got, ids), r in zip(cases, driver.ask(reqs, timeout=1200)):
             if r.get("ids") != ids or r.get("nodes") != got:
